@@ -4,6 +4,8 @@ One encoder, used in both directions (recording real executions, replaying TLC-g
 calls).  Only public attributes are read.  All numbers are strings: TLC integers are 32
 bit and JSON readers mangle large values.
 """
+import decimal
+import fractions
 import math
 import os
 import sys
@@ -101,6 +103,10 @@ def encode(x, refs, depth=0):
         return leaf("float", fnum(x))
     if isinstance(x, str):
         return leaf("str", x)
+    if isinstance(x, (decimal.Decimal, fractions.Fraction)):
+        return leaf("numlike", fnum(float(x)))      # a number-like object that is neither int nor float
+    if isinstance(x, complex):
+        return leaf("numlike", fnum(x.real))
     k = rating_kind(x)
     if k is not None:
         d = leaf("rating", k)
